@@ -264,6 +264,17 @@ func (w *worker) runCase(cfg Cfg, name string, next func(*view) (string, bool)) 
 			post := in.snapshot()
 			orc.afterSilence(post, in)
 			v.snap = post
+		case "chanmedia":
+			k, _ := strconv.Atoi(f[2])
+			line = in.doChanMedia(k)
+			res.dist["chanmedia:probed"]++
+			if strings.Contains(line, "x") {
+				orc.violate("interleaved frames reach the media their channel was set up for", "sess-channel-media-mismatch",
+					fmt.Sprintf("session %d: %s (x = the packet of that media did not arrive / was not counted)", k, line))
+			}
+			post := in.snapshot()
+			orc.afterQuiet("channel probe", post, in)
+			v.snap = post
 		case "media":
 			k, _ := strconv.Atoi(f[2])
 			line = in.doMedia(k)
@@ -299,6 +310,15 @@ func (w *worker) runCase(cfg Cfg, name string, next func(*view) (string, bool)) 
 				return res
 			}
 			linked := in.linkedSession(r.Conn)
+			var usedChans []int // interleaved RTP channels of the addressed session before the request
+			if k := linked; r.Method == "setup" {
+				if k < 0 {
+					k, _ = strconv.Atoi(r.Sid)
+				}
+				if mp := in.sessMedia[k]; mp != nil && mp.tcp {
+					usedChans = append(usedChans, mp.chans...)
+				}
+			}
 			out, err := in.doReq(r)
 			if err != nil {
 				res.err = err
@@ -324,6 +344,7 @@ func (w *worker) runCase(cfg Cfg, name string, next func(*view) (string, bool)) 
 					}
 				}
 			}
+			orc.afterSetupChannels(r, out, usedChans)
 			orc.afterReq(r, out, linked, post, in)
 			v.snap = post
 		default:
@@ -1108,6 +1129,26 @@ func buildJobs(c *corr.Ctx) []job {
 				for i := start; i < start+per && i < len(cases); i++ {
 					r := w.runChecked(fullCfg, names[i], scripted(cases[i]))
 					r.dist["sweep:refused-by-the-application"]++
+					out(r)
+				}
+			})
+		}
+	}
+	// explicit interleaved channel pairs; `*` request URLs with a Session header
+	for _, sw := range []struct {
+		tag string
+		cfg Cfg
+		gen func() ([]string, [][]string)
+	}{{"sweep:explicit-interleaved-channels", chanCfg, channelSweep}, {"sweep:star-url", fullCfg, starSweep}} {
+		sw := sw
+		names, cases := sw.gen()
+		const per = 32
+		for start := 0; start < len(cases); start += per {
+			start := start
+			jobs = append(jobs, func(w *worker, out func(caseResult)) {
+				for i := start; i < start+per && i < len(cases); i++ {
+					r := w.runChecked(sw.cfg, names[i], scripted(cases[i]))
+					r.dist[sw.tag]++
 					out(r)
 				}
 			})
